@@ -307,7 +307,7 @@ class YncaCommandHandler(socketserver.StreamRequestHandler):
 
                 value = float(self.store.get_data(subunit, function))
                 value = str(value + (amount * (1 if up else -1)))
-            except ValueError:
+            except (ValueError, OverflowError):
                 # Not a valid step or no (numeric) volume known for this subunit
                 self._send_ynca_error(UNDEFINED)
                 return
